@@ -498,6 +498,21 @@ func Observe(rd ReadAPI, p *Pool) string {
 				fmt.Fprintf(&sb, "Iter.%s ranged again after stopping at element %d: %v (nested: %v), first pass %v\n", sq.name, stop, again, inner, first)
 			}
 		}
+		if len(first) >= 2 {
+			// the outer loop goes on after a complete nested pass over the same value
+			var outer, inner []string
+			n := 0
+			for m, r := range sq.seq {
+				outer = append(outer, fmt.Sprintf("%s %s#%d", m, r.Pattern(), fx.RouteVer(r)))
+				if n++; n == 1 {
+					inner = collect()
+				}
+			}
+			sort.Strings(outer)
+			if !slices.Equal(first, outer) || !slices.Equal(first, inner) {
+				fmt.Fprintf(&sb, "Iter.%s with a nested pass over the same value at its first element: outer %v, nested %v, lone pass %v\n", sq.name, outer, inner, first)
+			}
+		}
 	}
 	for _, m := range p.Methods {
 		for _, pt := range p.Patterns {
@@ -758,6 +773,21 @@ func BFS(p *Pool, ops []Op, maxLive int, maxStates int, workers int, expired fun
 // over a history, would multiply the state space without changing any observable behaviour
 // (allocation behaviour is C16's subject).
 func key(s *State) string {
+	return shapeKey(s) + lastModeKey(s)
+}
+
+// lastModeKey distinguishes a state whose last operation went through a committed managed transaction
+// (Router.Updates: a caching transaction) from the same (set, tree dump) reached otherwise. The dump
+// cannot show what a transaction leaves behind outside the tree, so both are kept and expanded: every
+// operation is also tried right after a committed managed transaction.
+func lastModeKey(s *State) string {
+	if n := len(s.Path); n > 0 && s.Path[n-1].Mode == TxnCommit {
+		return "\nafter-managed-commit"
+	}
+	return ""
+}
+
+func shapeKey(s *State) string {
 	if len(s.Shape) == 40 && !strings.Contains(s.Shape, "\n") {
 		return s.Model.String() + "\n" + s.Shape // already compacted
 	}
@@ -776,6 +806,6 @@ func key(s *State) string {
 // ShapeDigest returns the digest used in state keys for the router's current tree.
 func ShapeDigest(f *fox.Router) string {
 	st := &State{Model: Model{}, Shape: fox.VerifShape(f)}
-	key(st)
+	shapeKey(st)
 	return st.Shape
 }
